@@ -599,7 +599,9 @@ def c17(a):
               "alphabet; 8 KiB..256 KiB inputs (runs of digits, blanks, letters, signs, parentheses, 0xFF, repeated valid "
               "text) with a time bound per KiB. TimeZone::tzif on real, bundled and synthetic TZif files under structure-aware "
               "mutation (header counts, transition times, order, type indices, offsets, designation indices, truncation, "
-              "hostile footers, versions, bit flips, block duplication) and TLC plans; every accepted zone is queried at 300+ "
+              "hostile footers, versions, bit flips, block duplication) and TLC plans; TimeZoneDatabase::from_concatenated_path "
+              "on mutated Android-style files (header offsets, index names / starts / lengths, entry order, truncation, bit "
+              "flips, damaged data) with available() and every get(); every accepted zone is queried at 300+ "
               "instants, 4 civil datetimes and iterated 3000 steps in both directions. Trace_Parse.tla decides: never a "
               "panic or hang, Ok values inside the documented range (recomputed from Calendar/Instant/CivilArith), print + "
               "re-parse equal, accepted zones answer with in-range offsets and strictly ordered transitions, jiff and its "
